@@ -774,4 +774,178 @@ theorem mkWatchers_shapes (t : Oid) (m : Name) : ∀ (deps : List (Oid × Name))
       · obtain ⟨a, b, c, e⟩ := h3 x hx
         exact ⟨a, b, c, by simp only [List.map_cons, List.mem_cons]; exact Or.inr e⟩
 
+/-! ## Part 3: `_update_deps` rebuilds exactly the watchers the current graph needs -/
+
+/-- scope of the C07 theorems: `t` is the only object whose class has dependent methods, that class
+has the single method `m` with the single path spec `s` whose leaf is an ordinary Parameter, every
+object has the parameters the spec names, path parameters hold `None` or an existing object -/
+structure Scope (w : PWorld) (t : Oid) (m : Name) (s : PathSpec) : Prop where
+  tcls : ∃ ct, classOf w t = some ct ∧ ct.methods = [⟨m, [s]⟩]
+  others : ∀ o c, o ≠ t → classOf w o = some c → c.methods = []
+  leaf : s.leaf ≠ "param"
+  path : s.path ≠ []
+  names : ∀ n ∈ s.path, HasName w n ∧ ObjName w n ∧ n ≠ "param"
+  hasLeaf : HasName w s.leaf
+
+theorem HasName.congr {w w' : PWorld} (h : SameGraph w w') {n : Name} (hn : HasName w n) : HasName w' n := by
+  intro o ho
+  rw [getParam_congr h]
+  exact hn o (by rw [← h.1]; exact ho)
+
+theorem ObjName.congr {w w' : PWorld} (h : SameGraph w w') {n : Name} (hn : ObjName w n) : ObjName w' n := by
+  intro o v hv
+  rw [getParam_congr h] at hv
+  rcases hn o v hv with h1 | ⟨o', h1, h2⟩
+  · exact Or.inl h1
+  · exact Or.inr ⟨o', h1, by rw [h.1]; exact h2⟩
+
+theorem Scope.congr {w w' : PWorld} {t : Oid} {m : Name} {s : PathSpec} (h : SameGraph w w') (hs : Scope w t m s) :
+    Scope w' t m s :=
+  ⟨by simpa [classOf_congr h] using hs.tcls, fun o c ho hc => hs.others o c ho (by rw [← classOf_congr h]; exact hc),
+   hs.leaf, hs.path, fun n hn => ⟨(hs.names n hn).1.congr h, (hs.names n hn).2.1.congr h, (hs.names n hn).2.2⟩,
+   hs.hasLeaf.congr h⟩
+
+/-- the watchers of `t.m` are exactly those the current graph needs, all recorded in `dynamic_watchers` -/
+structure Installed (w : PWorld) (t : Oid) (m : Name) (s : PathSpec) : Prop where
+  shapes : w.watchers.map shapeOf = built w t s
+  owned : ∀ x ∈ w.watchers, x.owner = t ∧ x.method = m ∧ x.id ∈ dynGet w.dyn (t, m)
+  cbs : ∀ x ∈ w.watchers, ∀ a, x.callback = some a → a = none ∨ a = some s.root
+  dynKeys : ∀ e ∈ w.dyn, e.1 = (t, m)
+
+theorem zip_rebuild : ∀ (B : List Shape) (D : List (Oid × Name)) (R : List (Option (List (List Name)) × Option (Option Name)))
+    (a : Option Name),
+    D.map (fun d => (d.1, [d.2])) = B.map (fun sh => (sh.on, sh.params)) →
+    R = B.map (fun sh => (sh.changed, if sh.cb then some a else none)) →
+    (D.zip R).map (fun dr => (⟨dr.1.1, [dr.1.2], dr.2.1, dr.2.2.isSome⟩ : Shape)) = B := by
+  intro B
+  induction B with
+  | nil => intro D R a hd hr; subst hr; simp
+  | cons b rest ih =>
+    intro D R a hd hr
+    cases D with
+    | nil => simp at hd
+    | cons d ds =>
+      subst hr
+      simp only [List.map_cons, List.cons.injEq, Prod.mk.injEq] at hd
+      obtain ⟨⟨h1, h2⟩, h3⟩ := hd
+      simp only [List.map_cons, List.zip_cons_cons, List.cons.injEq]
+      refine ⟨?_, ih ds _ a h3 rfl⟩
+      cases b
+      simp_all
+      split <;> simp
+
+theorem classOf_lt {w : PWorld} {t : Oid} {c : PClass} (h : classOf w t = some c) : t < w.objs.length := by
+  unfold classOf at h
+  rcases Nat.lt_or_ge t w.objs.length with h1 | h1
+  · exact h1
+  · rw [List.getElem?_eq_none h1] at h; cases h
+
+/-- **the rebuild**: with every installed watcher recorded in `dynamic_watchers[m]`, an
+`_update_deps(attribute)` that applies (`attribute` is `None` or the root of the spec) removes them all
+and installs exactly the watchers the current graph needs -/
+theorem rebuild (w : PWorld) (t : Oid) (m : Name) (s : PathSpec) (attrib : Option Name)
+    (hs : Scope w t m s) (hsimple : (chainObjsFrom w t s.path).Nodup)
+    (hown : ∀ x ∈ w.watchers, x.id ∈ dynGet w.dyn (t, m)) (hkeys : ∀ e ∈ w.dyn, e.1 = (t, m))
+    (hattr : attrib = none ∨ attrib = some s.root) :
+    ∃ w', updateDeps w t attrib false = .ok w' ∧ SameGraph w w' ∧ w'.log = w.log ∧ Installed w' t m s := by
+  obtain ⟨ct, hct, hm⟩ := hs.tcls
+  have htl : t < w.objs.length := classOf_lt hct
+  -- the state after `dynamic_watchers.pop(method)` and the `unwatch` loop
+  have hfilter : ([s].filter (fun s' => match attrib with | none => true | some a => s'.root = a)) = [s] := by
+    rcases hattr with rfl | rfl <;> simp
+  have hw1 : ({ w with watchers := w.watchers.filter (fun x => !((dynGet w.dyn (t, m)).contains x.id)),
+                       dyn := w.dyn.filter (fun e => e.1 ≠ (t, m)) } : PWorld) =
+             { w with watchers := [], dyn := [] } := by
+    have h1 : w.watchers.filter (fun x => !((dynGet w.dyn (t, m)).contains x.id)) = [] := by
+      rw [List.filter_eq_nil_iff]
+      intro x hx
+      simp [hown x hx]
+    have h2 : w.dyn.filter (fun e => e.1 ≠ (t, m)) = [] := by
+      rw [List.filter_eq_nil_iff]
+      intro e he
+      simp [hkeys e he]
+    rw [h1, h2]
+  generalize hw1def : ({ w with watchers := [], dyn := [] } : PWorld) = w1 at hw1
+  have hg1 : SameGraph w w1 := by subst hw1def; exact ⟨rfl, rfl⟩
+  have hs1 : Scope w1 t m s := hs.congr hg1
+  have hdeps : specToObj w1 t (s.path.length + 1) s.path s.leaf = .ok (depsRoot w1 t s.path s.leaf) :=
+    specToObj_eq w1 t (by rw [hg1.1]; exact htl) _ s.path s.leaf (Nat.lt_succ_self _) hs1.names hs1.hasLeaf hs1.leaf
+  have hsimple1 : (chainObjsFrom w1 t s.path).Nodup := by rw [chainObjsFrom_congr hg1]; exact hsimple
+  -- the dependencies sit on pairwise distinct objects
+  have hnd : ((depsRoot w1 t s.path s.leaf).map (·.1)).Nodup := by
+    unfold depsRoot
+    split
+    · simp
+    · split
+      · rw [depsFrom_fst]; exact hsimple1
+      · simp
+  have hgroups : groupSpecs w1 t [] [s] = .ok ((depsRoot w1 t s.path s.leaf).map (fun d => (d.1, [(s, d.2)]))) := by
+    simp only [groupSpecs, hdeps]
+    rw [foldl_addToGroups s _ [] hnd (by simp)]
+    simp
+  -- filters and callbacks
+  let res := (depsRoot w1 t s.path s.leaf).map (fun d => rddCore (chain w1 (.ref t) s.path) s.elems d.1 attrib)
+  have hres : (depsRoot w1 t s.path s.leaf).map (fun d => resolveDynamicDeps w1 t s d.1 attrib) = res.map Except.ok := by
+    simp only [res, List.map_map]
+    apply List.map_congr_left
+    intro d _
+    exact resolveDynamicDeps_core w1 t s d.1 attrib hs1.leaf
+  obtain ⟨w', h1, h2, h3, h4, h5, h6⟩ := watchGroups_singletons w1 t m attrib s _ res w1 (SameGraph.refl _) hres
+    (by subst hw1def; simp)
+  have hlen : (depsRoot w1 t s.path s.leaf).length = res.length := by simp [res]
+  obtain ⟨m1, m2, m3⟩ := mkWatchers_shapes t m (depsRoot w1 t s.path s.leaf) res w1.nextId hlen
+  have hwat1 : w1.watchers = [] := by subst hw1def; rfl
+  have hdyn1 : dynGet w1.dyn (t, m) = [] := by subst hw1def; rfl
+  refine ⟨w', ?_, hg1.trans h2, ?_, ?_⟩
+  · unfold updateDeps
+    rw [hct]
+    simp only [hm, updateEntries, updateEntry, hfilter]
+    simp only [List.isEmpty_cons, Bool.and_false, Bool.false_eq_true, if_false]
+    rw [hw1, hgroups]
+    simp only [h1]
+  · rw [h3]; subst hw1def; rfl
+  · rw [hwat1, List.nil_append] at h4
+    refine ⟨?_, ?_, ?_, h6⟩
+    · rw [h4, m1, built_congr h2]
+      -- position by position: holder/parameter from the walk, filter/callback from `rdd_gen`
+      unfold built depsRoot at *
+      obtain ⟨n0, rest0, hpe⟩ := List.exists_cons_of_ne_nil hs.path
+      simp only [hpe] at *
+      cases hroot : getParam w1 t n0 with
+      | none => simp [res, depsRoot, hpe, hroot]
+      | some v =>
+        cases v with
+        | none => simp [res, depsRoot, hpe, hroot]
+        | int i => simp [res, depsRoot, hpe, hroot]
+        | ref o1 =>
+          simp only [res, depsRoot, hpe, hroot]
+          apply zip_rebuild _ _ _ attrib
+          · exact (builtFrom_deps w1 (n0 :: rest0) t 0 s.leaf).symm
+          · have := rdd_gen w1 attrib s.leaf (n0 :: rest0) [] [] t rfl (by simp) (by rw [← hpe]; exact hsimple1)
+            simp only [List.nil_append, List.length_nil] at this
+            simp only [PathSpec.elems, hpe]
+            exact this
+    · intro x hx
+      rw [h4] at hx
+      obtain ⟨a, b, _, _⟩ := m3 x hx
+      refine ⟨a, b, ?_⟩
+      rw [h5, hdyn1, List.nil_append]
+      exact List.mem_map.2 ⟨x, hx, rfl⟩
+    · intro x hx a ha
+      rw [h4] at hx
+      obtain ⟨_, _, _, hc⟩ := m3 x hx
+      rw [ha] at hc
+      obtain ⟨r, hr, hr2⟩ := List.mem_map.1 hc
+      simp only [res, List.mem_map] at hr
+      obtain ⟨d, _, rfl⟩ := hr
+      unfold rddCore at hr2
+      split at hr2
+      · simp at hr2
+      · simp only at hr2
+        split at hr2
+        · simp only [Option.some.injEq] at hr2
+          subst hr2
+          exact hattr
+        · simp at hr2
+
 end ParamVerif.Depends
